@@ -65,6 +65,17 @@ Proof.
   intros j x H. destruct j; discriminate.
 Qed.
 
+(* the same feature objects handed to the record again after a clear, in another order (their stale numbers 1, 2, 3 are
+   still in the dictionary): features 1 < 2 < 3 added in location order, cleared, added again as 3, 2, 1 *)
+Example C06_numbering_readd_example :
+  let ops := [OAdd 0 1; OAdd 1 2; OAdd 2 3; OClear; OAdd 0 3; OAdd 0 2; OAdd 0 1] in
+  let st := fold_left apply_op ops ([], []) in
+  admissible ([], []) ops /\ fst st = [1; 2; 3] /\
+  number_of 1 (snd st) = Some 1 /\ number_of 2 (snd st) = Some 2 /\ number_of 3 (snd st) = Some 3.
+Proof.
+  cbn. repeat split; try (intros [H|H]; try lia; try destruct H; lia); try lia; try tauto.
+Qed.
+
 (* add_region on a record whose regions do not span the origin (every linear record): the list being
    in location order and pairwise disjoint, a new region is refused (ValueError) exactly when it
    shares a base with a region of the record; otherwise it is inserted, and the list stays in location
@@ -142,6 +153,27 @@ Example C06_no_stale_parents_example :
   lget 0 (l_cdsreg st) = Some 1 /\ lget 1 (l_cdsreg st) = None /\ map lr_id (l_regions st) = [1].
 Proof. vm_compute. repeat split; reflexivity. Qed.
 
+(* clear_protoclusters, then the same protoclusters and the same candidate cluster object handed to the record again,
+   then strip_antismash_annotations with regions present: no link survives *)
+Example C06_no_stale_parents_readd_example :
+  let ops := [LAddProto 100; LAddCand 200 [100]; LAddSub 300; LCreate [([200; 300], [0; 1])]; LClearProtos [([300], [1])];
+              LAddProto 100; LReAddCand 200 [100]] in
+  let st := fold_left l_apply ops l_empty in
+  let st' := fold_left l_apply (ops ++ [LStrip [[([300], [1])]; [([300], [1])]; []]]) l_empty in
+  lget 100 (l_pparent st) = None /\ lget 200 (l_aparent st) = None /\ lget 300 (l_aparent st) = Some 1 /\
+  map fst (l_cands st) = [200] /\ l_protos st = [100] /\
+  lget 300 (l_aparent st') = None /\ lget 1 (l_cdsreg st') = None /\ l_regions st' = [] /\ l_subs st' = [].
+Proof. vm_compute. repeat split; reflexivity. Qed.
+
+(* every history that ends with strip_antismash_annotations (clear_protoclusters, clear_candidate_clusters,
+   clear_subregions, clear_regions, each of the first three re-creating the regions when there are some) leaves no
+   parent and no region link at all *)
+Theorem C06_strip_resets_everything : forall ops gl, let st := fold_left l_apply (ops ++ [LStrip gl]) l_empty in
+  (forall p, lget p (l_pparent st) = None) /\ (forall a, lget a (l_aparent st) = None) /\
+  (forall g, lget g (l_cdsreg st) = None).
+Proof. exact strip_resets_everything. Qed.
+Print Assumptions C06_strip_resets_everything.
+
 (* Circular (and linear) records in the Loc.v model, guard: no area spans the origin.  For every
    such record and every supply of candidate clusters and sub-regions: the sweep of create_regions
    with overlaps_with / connect_locations(wrap_point) and the merge of sections overlapping the first one succeeds and finds
@@ -212,3 +244,33 @@ Theorem C06_components_ring_refuted :
   (exists N supply, record_regions N true supply = Err E_Value).
 Proof. exact ring_counterexamples. Qed.
 Print Assumptions C06_components_ring_refuted.
+
+(* A gene added AFTER the regions (Record._link_cds_to_parent, bisected window over the region list).  Whatever the
+   regions and the gene: the gene is only linked to regions of the record that contain it ... *)
+Theorem C06_late_gene_link_sound : forall regs g i, In i (link_hits regs g) ->
+  exists r, nth_error regs i = Some r /\ contains r g = true.
+Proof. exact link_hits_sound. Qed.
+Print Assumptions C06_late_gene_link_sound.
+
+(* ... but "each gene points to the region containing it, whether it was added before or after the areas" (a clause
+   of C08, whose theorem C08_link_window proves it for regions that do not span the origin) is false next to an
+   origin-spanning region (finding late_gene_origin_region_unlinked): on a circular record of 1000 the sub-regions
+   900..50, 100..200, 400..500, 600..700 give four regions; the gene 950..980 lies inside the first one and the window
+   holds no region containing it, while the gene 10..40 (after the origin) is found *)
+Theorem C06_late_gene_link_refuted :
+  exists N supply regs r g, record_regions N true supply = Ok regs /\ In r regs /\
+    contains (rloc r) g = true /\ link_hits (map rloc regs) g = [].
+Proof. exact late_gene_refuted. Qed.
+Print Assumptions C06_late_gene_link_refuted.
+
+(* the witness in full: both genes lie inside the first region; the one before the origin is missed, the one after it is
+   found at position 0 *)
+Example C06_late_gene_link_example :
+  let sub i l := mkCA i 0 l in
+  let supply := [sub 0 [mkPart 900 1000 1; mkPart 0 50 1]; sub 1 [mkPart 100 200 1]; sub 2 [mkPart 400 500 1];
+                 sub 3 [mkPart 600 700 1]] in
+  exists regs r, record_regions 1000 true supply = Ok regs /\ In r regs /\
+    contains (rloc r) [mkPart 950 980 1] = true /\ contains (rloc r) [mkPart 10 40 1] = true /\
+    link_hits (map rloc regs) [mkPart 950 980 1] = [] /\
+    link_hits (map rloc regs) [mkPart 10 40 1] = [0%nat].
+Proof. exact late_gene_witness. Qed.
